@@ -97,7 +97,7 @@ theorem queue_step (hL : InvLock s) (hE : InvEv s) (hE' : InvEv s') (h : InvQ s)
     rw [inCS_of_none hl] at h0
     simp [tokPart, firstCS, hev, h0]
   -- C: inside a critical section, nothing shared changes
-  case wTestOk hpc _ _ | cPrune hpc | eTestWSome hpc _ | eTestWNone hpc _ | rdPick hpc | xPrune hpc =>
+  case wTestOk hpc _ _ | cPrune hpc _ | cPruneFail hpc _ | eTestWSome hpc _ | eTestWNone hpc _ | rdPick hpc | xPrune hpc =>
     have hl := lock_eq_of_pc hL (t := t) (by simp [hpc])
     rw [inCS_setLoc_self _ hl]
     rw [inCS_of_lock hl] at h0
@@ -115,7 +115,7 @@ theorem queue_step (hL : InvLock s) (hE : InvEv s) (hE' : InvEv s') (h : InvQ s)
     rw [inCS_of_lock hl] at h0
     simpa [firstCS, hpc, tokPart] using h0
   -- D: inside a critical section, shared fields that do not matter here
-  case cAppend hpc | cNodes hpc | eSet _ hpc _ | rdAdd hpc | xRemove hpc =>
+  case cAppend hpc | cNodes hpc | cUndo hpc | eSet _ hpc _ | rdAdd hpc | xRemove hpc =>
     have hl := lock_eq_of_pc hL (t := t) (by simp [hpc])
     rw [inCS_of_lock hl] at h0
     rw [inCS_setLoc_self]
